@@ -75,7 +75,7 @@ def run(res, tier, seed, shard, nshards):
                 cuts = rng.choice([None, sorted({rng.randrange(1, len(stream)) for _ in range(rng.choice([2, 10, 60]))})])
                 judge(res, W, rng, stream, mode, ("rand", npings, mode), cuts)
 
-    with H.ambient((seed, shard, "C07"), res, dims=("multithread", "tls", "dispatcher", "high_fd")):
+    with H.ambient((seed, shard, "C07"), res, dims=("multithread", "tls", "dispatcher", "high_fd", "warn_error", "thread_hop", "truthy")):
         H.in_sim(scen, watchdog=3000)
 
     def scen2():
